@@ -280,6 +280,9 @@ def evaluate_jobs(out, rc, err, var, expect, lines_by_id):
     return V, cnt, seen
 
 
+MGR_LEVEL_CALLS = ("GET_NEXT_BURST", "SUBMIT_BURST", "FLUSH_BURST", "imb_set_session")
+
+
 def evaluate_direct(out, rc, err, var):
     V, n = [], 0
     for l in out.splitlines():
@@ -298,6 +301,11 @@ def evaluate_direct(out, rc, err, var):
             else:
                 sig = "wrong-code:" + name
             V.append(dict(sig=sig, var=var, name=name, what="%s (%s): imb_get_errno=%d field=%d mirror=%d, documented %d" % (name, kind, g, f, gl, ex)))
+        elif kind == "fail" and f != ex and "mgr=NULL" not in name and name.split("(")[0] in MGR_LEVEL_CALLS:
+            # calls made ON a manager record their failure in that manager (the process-wide mirror alone is overwritten
+            # by the next call of anybody and masked by an older code in the manager's own field)
+            V.append(dict(sig="errno-not-in-manager:" + name, var=var, name=name,
+                          what="%s failed with %d but the manager's own error field holds %d (imb_get_errno=%d, mirror=%d)" % (name, ex, f, g, gl)))
     if rc != 0:
         V.append(dict(sig="crash-or-hang", var=var, name="direct battery", what="harness exit %s: %s" % (rc, err[-300:])))
     return V, n
